@@ -191,3 +191,29 @@ func isIntConst(v ssa.Value, n int64) bool {
 	x, exact := constant.Int64Val(c.Value)
 	return exact && x == n
 }
+
+// variadicElems: the values packed into the slice a variadic call receives (f(a, x, y) compiles to
+// an array allocation, one store per element and a slice of it); nil for f(a, xs...).
+func variadicElems(v ssa.Value) []ssa.Value {
+	sl, ok := v.(*ssa.Slice)
+	if !ok {
+		return nil
+	}
+	al, ok := sl.X.(*ssa.Alloc)
+	if !ok {
+		return nil
+	}
+	var out []ssa.Value
+	for _, ref := range *al.Referrers() {
+		ia, ok := ref.(*ssa.IndexAddr)
+		if !ok {
+			continue
+		}
+		for _, r2 := range *ia.Referrers() {
+			if st, ok := r2.(*ssa.Store); ok && st.Addr == ia {
+				out = append(out, st.Val)
+			}
+		}
+	}
+	return out
+}
